@@ -41,26 +41,28 @@
 #define REF_EQ_AT(a, b, n, k) ((n) <= (k) || (a)[k] == (b)[k])
 #define REF_EQN(a, b, n) (REF_EQ_AT(a, b, n, 0) && REF_EQ_AT(a, b, n, 1) && REF_EQ_AT(a, b, n, 2) && REF_EQ_AT(a, b, n, 3) && \
                           REF_EQ_AT(a, b, n, 4) && REF_EQ_AT(a, b, n, 5) && REF_EQ_AT(a, b, n, 6) && REF_EQ_AT(a, b, n, 7))
-/* x (length xl) "ends with '/' and is a prefix of" y (length yl) */
-#define REF_SLASH_PREFIX(x, xl, y, yl) ((xl) > 0 && (xl) <= (yl) && (x)[(xl) - 1] == '/' && REF_EQN(x, y, xl))
-
-/* argN: "Only arguments of type STRING can be matched in this way."  The value is compared for equality
- *        ("An example of an argument match would be arg3='Foo'"). */
-#define REF_ARGM_PLAIN(e, el, t, a, al) ((t) == REF_T_STRING && (el) == (al) && REF_EQN(e, a, el))
-/* argNpath: "They can match arguments whose type is either STRING or OBJECT_PATH. As with normal argument
+/* The macro form shares one comparison of the common prefix (the first min(el, al) bytes) between the cases:
+ * "exactly equal" = same length and common prefix equal; "x is a prefix of y" = xl <= yl and common prefix equal.
+ * (The plain C form below is written case by case; the harness proves that the two forms agree.)
+ *
+ * argN: "Only arguments of type STRING can be matched in this way."  The value is compared for equality
+ *        ("An example of an argument match would be arg3='Foo'").
+ * argNpath: "They can match arguments whose type is either STRING or OBJECT_PATH. As with normal argument
  *        matches, if the argument is exactly equal to the string given in the match rule then the rule is
  *        satisfied. Additionally, there is also a match when either the string given in the match rule or
- *        the appropriate message argument ends with '/' and is a prefix of the other." */
-#define REF_ARGM_PATH(e, el, t, a, al) (((t) == REF_T_STRING || (t) == REF_T_OBJECT_PATH) && \
-     (((el) == (al) && REF_EQN(e, a, el)) || REF_SLASH_PREFIX(e, el, a, al) || REF_SLASH_PREFIX(a, al, e, el)))
-/* arg0namespace: "Match messages whose first argument is of type STRING, and is a bus name or interface name
+ *        the appropriate message argument ends with '/' and is a prefix of the other."
+ * arg0namespace: "Match messages whose first argument is of type STRING, and is a bus name or interface name
  *        within the specified namespace."  Example: 'com.example.backend1' "matches name owner changes for
  *        bus names such as com.example.backend1.foo, com.example.backend1.foo.bar, and com.example.backend1
  *        itself": the argument equals the namespace or continues it with a '.'-separated element. */
-#define REF_ARGM_NS(e, el, t, a, al) ((t) == REF_T_STRING && \
-     (((el) == (al) && REF_EQN(e, a, el)) || ((el) < (al) && REF_EQN(e, a, el) && (a)[el] == '.')))
+#define REF_MIN(x, y) ((x) < (y) ? (x) : (y))
+#define REF_TYPE_OK(kind, t) ((t) == REF_T_STRING || ((kind) == REF_ARG_PATH && (t) == REF_T_OBJECT_PATH))
 #define REF_ARGM(kind, e, el, t, a, al) \
-   ((kind) == REF_ARG_PATH ? REF_ARGM_PATH(e, el, t, a, al) : (kind) == REF_ARG_NAMESPACE ? REF_ARGM_NS(e, el, t, a, al) : REF_ARGM_PLAIN(e, el, t, a, al))
+   (REF_TYPE_OK (kind, t) && REF_EQN (e, a, REF_MIN (el, al)) && \
+    ((el) == (al)                                                                   /* exactly equal */ \
+     || ((kind) == REF_ARG_PATH && (el) < (al) && (el) > 0 && (e)[(el) - 1] == '/')   /* rule value ends with '/' and is a prefix of the argument */ \
+     || ((kind) == REF_ARG_PATH && (al) < (el) && (al) > 0 && (a)[(al) - 1] == '/')   /* argument ends with '/' and is a prefix of the rule value */ \
+     || ((kind) == REF_ARG_NAMESPACE && (el) < (al) && (a)[el] == '.')))              /* argument continues the namespace with '.' */
 
 /* the same for any length (plain C) */
 static int ref_eqn (const char *a, const char *b, long n) { long k; for (k = 0; k < n; k++) if (a[k] != b[k]) return 0; return 1; }
